@@ -1,7 +1,7 @@
 """C15 deferred work completed exactly once, in its own invocation and thread - see DESIGN.md section 4 (C15)."""
 import ast
 
-from .common import Ctx, Finding, Result, need, term, P, TRUSTED_LOGGING, trace_worker
+from .common import is_attach_call, Ctx, Finding, Result, need, term, P, TRUSTED_LOGGING, trace_worker
 from .c03 import table_rule
 from ..index import norm
 from ..dtable import Table, Vars
@@ -203,7 +203,7 @@ def run(ctx: Ctx, tier: str) -> Result:
             continue
         for f_ in p.functions.values():
             for c in t.calls_in(f_):
-                if not (isinstance(c.func, ast.Attribute) and c.func.attr == "attach_result" and c.args):
+                if not (is_attach_call(ctx, c, f_) and c.args) or (c.func.attr != "attach_result" and f_.name == c.func.attr):
                     continue
                 made = c.args[0]
                 if isinstance(made, ast.Name):
@@ -213,7 +213,7 @@ def run(ctx: Ctx, tier: str) -> Result:
                     continue
                 n_att += 1
                 lps_ = paths.enclosing_loops(p, c, f_)
-                others = [c2 for c2 in t.calls_in(f_) if c2 is not c and isinstance(c2.func, ast.Attribute) and c2.func.attr == "attach_result" and c2.args
+                others = [c2 for c2 in t.calls_in(f_) if c2 is not c and is_attach_call(ctx, c2, f_) and c2.args
                           and norm(c2.args[0]) == norm(c.args[0])]
                 if lps_ or others:
                     res.fail(Finding("C15.ONCE", f_.qname, c, f_.loc(c), "a %s is attached %s: the same spans / snapshot end up in several results, so each is "
